@@ -10,7 +10,12 @@ def m_f13(req, impl, model, clause):
 
 
 def m_f12(req, impl, model, clause):
-    return clause.startswith("F12 ")
+    # C12: spaces_insert_delete_only && normalized, value agrees with the model (= reference / longer length), in (1, 2]
+    t = req.split(" ")
+    if not (clause.startswith("F12 ") and t[0] == "dist" and t[3] == "1" and t[4] == "1" and model.startswith("ok q:")):
+        return False
+    num, den = model[5:].split("/")
+    return int(den) > 0 and int(den) < int(num) <= 2 * int(den) and impl.startswith("ok f:") and abs(float(impl[5:]) - int(num) / int(den)) < 1e-9
 
 
 def m_f14(req, impl, model, clause):
@@ -41,6 +46,15 @@ PROPS = {
         min_nontrivial={"quick": 500, "thorough": 5000},
         claim="Theorems for every text: clean_Clean (normal form), clean_nonws(_stable), clean_idem, clean_of_Clean, clean_eq_join (= split on whitespace joined by single spaces), wordBoundaries_sep + wordBoundaries_cover (ranges are exactly the maximal non-whitespace runs, in order), remove_eq, full_eq/full_nonws — on the cluster-level model; exact correspondence with text::clean, word_boundaries, whitespace::remove/full on generated and (thorough) exhaustively enumerated strings; direct oracle against split_whitespace().",
         note="String-level re-segmentation in grapheme mode is outside the cluster-level theorems: F13 (clean not idempotent when the inserted space fuses with a lone Extend cluster) is an open known finding. isWsCp table is checked against char::is_whitespace by the harness.",
+    ),
+    "C12": dict(
+        anchors=[("src/edit.rs", r"fn _calculate_edit_matrices\("), ("src/edit.rs", r"pub fn operations\("), ("src/edit.rs", r"pub fn distance\("), ("src/edit.rs", r"pub fn prefix_distance\(")],
+        rule="pairs over {a,b,space,a-umlaut} (+ combining marks, multi-byte letters), second string random or a 0-3 edit mutation of the first (insert/delete/replace/transpose) so that keeps and transpositions are dense; all 16 flag combinations; distance, prefix_distance, operations; thorough adds all pairs of strings of length <= 4 over {a,b,space} x all flags",
+        exhaustive={"thorough": "all pairs of strings of length <= 4 over {a,b,space} (121 x 121) x with_swap x spaces_insert_delete_only x normalized, code-point mode"},
+        trusted=UNICODE + ["f64 division is compared with the model's exact rational with relative tolerance 1e-12"],
+        min_nontrivial={"quick": 500, "thorough": 5000},
+        claim="PLACEHOLDER",
+        note="PLACEHOLDER",
     ),
     "C14": dict(
         anchors=[("src/data/preprocessing.rs", r"fn corrupt_whitespace\("), ("src/whitespace.rs", r"pub fn operations\("), ("src/whitespace.rs", r"pub fn repair\(")],
